@@ -39,7 +39,7 @@ for p in props:
     })
 man = {
     "version": 1,
-    "setup_cmd": "cd /verif/engine/mirfacts && CARGO_NET_OFFLINE=true cargo +nightly build --release --offline && cd /verif && python3 engine/grinlint/extract.py debug",
+    "setup_cmd": "cd /verif/engine/mirfacts && CARGO_NET_OFFLINE=true cargo +nightly build --release --offline && cd /verif && python3 engine/grinlint/extract.py debug && cd /verif/witness && cp /repo/Cargo.lock . && CARGO_NET_OFFLINE=true CARGO_TARGET_DIR=/verif/.cache/target-witness cargo +nightly check --offline --example w5_chain_send_sync_good",
     "hooks": {
         "guard": "mimblewimble_grin_verif",
         "enable": "none needed: the checks are static (cargo +nightly check with a rustc_private fact-extracting wrapper); no hook code exists in /repo",
